@@ -18,6 +18,9 @@ CHECKS = {
  "C14": ("proptest-generated CORS policies × application trees × simple/preflight requests; oracle = reference CORS model derived from the statement, fed with the policy and the flattened route table",
          "Exploration of policies × configurations × requests through the real CORS fang, automatic OPTIONS handlers, router and serializer. Right level: the property fails through interactions of registration shape (methods split over items/mounts) with preflights, which need generated configurations.",
          "policy on the root application; HEAD/OPTIONS as requested method accept either outcome; Vary unchecked", "DESIGN.md §7 C14"),
+ "C19": ("proptest-generated directory trees on a scratch file system × Dir settings × request paths; model-based oracle (route → bytes/MIME map computed from the tree; collisions must be refused)",
+         "Exploration of configurations (trees, mount routes, omit settings) × inputs (paths incl. traversal/encoding/near-miss variants) through the real Dir registration, router and serializer. Right level: 'exactly its files and nothing else' needs both directions checked over many trees.",
+         "documented restrictions of Dir (supported extensions, UTF-8 text, valid segment names) are generator invariants; scratch trees live under /verif/target/tmp", "DESIGN.md §7 C19"),
  "C20": ("exhaustive enumeration of days/seconds/small integers + proptest-generated timestamps and 64-bit integers against an independent civil-from-days / std formatting oracle",
          "Exploration; the sub-space 'first second of every day up to 9999-12-31, every second of day on ~35 days, every n < 10^6' is enumerated completely, the remaining inputs are sampled. Right level: the functions are pure, cheap, and have a trivially independent oracle, so near-total input coverage is affordable.",
          "std formatting and the oracle's civil-from-days (cross-checked against chrono and httpdate each run) are trusted", "DESIGN.md §7 C20"),
